@@ -5,7 +5,7 @@
 //! in `lib.rs` is invisible to them.  Here the fields are addressed *by name*: this file does not compile any more when a
 //! field is renamed, and the class converts to another generic value / other bytes when fields are reordered.  The Lean
 //! driver holds the same class as a positional value in JVMS item order (`C20Driver.golden`, frozen while the theorem
-//! `layouts_jvms_partial` certified that the translated item names are in JVMS order), so the op `raw-golden` (value and
+//! `layouts_jvms` certified that the translated item names are in JVMS order), so the op `raw-golden` (value and
 //! bytes) is compared like every other op and a same-width field swap becomes a concrete disagreement.
 use raw_class_file::*;
 
